@@ -10,7 +10,7 @@ PROP = dict(
                     "objects of a kind.  Exploration, not proof."),
         level_note=("trusts the snapshot oracle and the reference colour parser in harness/c20_layout.c / c20_cxx.cpp, the exact-or-refused conversions of the "
                     "harness convertable, gcc ASan+UBSan+LSan; string coded values (graph align/clip from text, axis intervals = log) are adopted"),
-        legs=[dict(name="c20_layout", src=["c20_layout.c"], libs=["mptplot", "mptcore"], batch=256, lsan=True,
+        legs=[dict(name="c20_layout", memcheck=1500, src=["c20_layout.c"], libs=["mptplot", "mptcore"], batch=256, lsan=True,
                    floors={"set:accepted": 20000, "set:refused": 20000, "monitor:readbacks-compared": 10000, "monitor:resets-compared": 3000,
                            "monitor:no-value-resets-compared": 500, "monitor:refusals-compared": 20000, "monitor:untouched-properties-compared": 200000,
                            "monitor:copies-compared": 3000, "copy:accepted": 5000, "monitor:object-resets-compared": 1000, "monitor:get-by-name": 10000,
